@@ -207,51 +207,52 @@ def scalar_val(c, p):
     return None
 
 
-def classify(c, cr, ref):
-    """-> known-finding id or None, for a case where the code differs from the reference (spec / bash)"""
+def classes(c, cr, ref):
+    """-> every recorded class the case lies in (a case where the code differs from the reference)"""
+    out = []
     ifs = " \t\n" if c.ifs is None else c.ifs
     flatp = X.flat(c.word)
     subwords = X.subword_requests(c.word)
     # "$*" / "${a[*]}" (and scalar joins) under IFS='': joined with a blank instead of nothing
     if ifs == "" and any(p[0] == "P" and p[1][0] in ("p", "d", "a") and
                          (p[1][1] if p[1][0] == "p" else p[1][2])[0] in ("*", "S") for p in flatp):
-        return "KF-C05-star-empty-ifs"
+        out.append("KF-C05-star-empty-ifs")
     if ESC_DOLLAR_Q.search(c.text):
-        return "KF-C05-escaped-dollar-quote"
+        out.append("KF-C05-escaped-dollar-quote")
     if bracket_across(c):
-        return "KF-C05-bracket-across-quotes"
+        out.append("KF-C05-bracket-across-quotes")
     # bash keeps at most one quoted-null of a word in some shapes: ""$x${e:-""} loses its trailing empty
     # field although $x${e:-""} keeps it.  Class: an unquoted ${p op ""} / ${p op ''} next to another quoting
     # piece, the two results differing only in empty fields.
     if cr[0] == "OK" and ref[0] == "OK" and [f for f in cr[1] if f != ""] == [f for f in ref[1] if f != ""] \
             and any(p[0] == "P" and p[1][0] in ("d", "a") and p[1][3] in ('""', "''") for p in c.word) \
             and any(p[0] in ("Q", "D") for p in c.word):
-        return "KF-C05-bash-quoted-null-once"
+        out.append("KF-C05-bash-quoted-null-once")
     # "${a[@]+''}"-style: a quoted-null default/alternative of a [@] expansion is removed by bash like "$@"
     for p in flatp:
         if p[0] == "P" and p[1][0] in ("d", "a") and p[1][2][0] in ("@", "R") and p[1][3] in ("''", '""'):
-            return "KF-C05-dq-at-null"
+            out.append("KF-C05-dq-at-null")
     # ${@:+w} ${a[@]:-w}: a list of two or more empty elements is not null in bash (they print as blanks)
     for p in flatp:
         if p[0] == "P" and p[1][0] in ("d", "a") and p[1][1] and p[1][2][0] in ("@", "R", "*", "S"):
             el = param_elems(c, p[1][2])
             if len(el) >= 2 and all(x == "" for x in el) and not (p[1][2][0] in ("*", "S") and ifs == ""):
-                return "KF-C05-list-null-test"
+                out.append("KF-C05-list-null-test")
     if py_known_at_null(c):
-        return "KF-C05-dq-at-null"          # = known_at_null of Expand/SpecProofs.v (cross-checked in run())
+        out.append("KF-C05-dq-at-null")          # = known_at_null of Expand/SpecProofs.v (cross-checked in run())
     for p in c.word:
         if p[0] == "D":
             for q in p[1]:
                 if q[0] == "P" and q[1][0] in ("d", "a"):
                     par = q[1][2]
                     if par[0] in ("@", "R") and not param_elems(c, par):
-                        return "KF-C05-dq-at-null"
+                        out.append("KF-C05-dq-at-null")
     # ${#v}: byte length instead of character length
     for p in flatp:
         if p[0] == "P" and p[1][0] == "l":
             v = scalar_val(c, p[1][1])
             if v is not None and any(ord(ch) > 127 for ch in v):
-                return "KF-C05-length-bytes"
+                out.append("KF-C05-length-bytes")
     # dot-files: only the FIRST piece of the field is inspected for a leading '.'
     def dotted(p):
         if p[0] == "T":
@@ -267,12 +268,19 @@ def classify(c, cr, ref):
         return False
     for k, p in enumerate(c.word):
         if k > 0 and dotted(p) and any(q[0] in ("Q", "D", "P", "X", "C") for q in c.word[:k]):
-            return "KF-C05-dot-first-piece"
+            out.append("KF-C05-dot-first-piece")
     # default / alternative words holding list expansions or quotes: nested field structure
     for (wtext, dq), (_q, _t) in subwords.items():
         if "$@" in wtext or "$*" in wtext or "[@]" in wtext:
-            return "KF-C05-list-in-default-word"
-    return None
+            out.append("KF-C05-list-in-default-word")
+    return out
+
+
+
+def classify(c, cr, ref, extra=()):
+    """attribution prefers OPEN classes; a deviating case lying only in fixed classes keeps a fixed id, which
+    the driver reports as a VIOLATION"""
+    return X.pick_class(list(extra) + classes(c, cr, ref))
 
 
 def list_op_form(c):
@@ -367,7 +375,7 @@ MODEL_CTX = ("arg", "arrelem")
 
 def evaluate(ctx, cases, bash_all=False, bash_sample=1500):
     subs, problems = X.check_parse_and_resolve(ctx, cases)
-    impl = ctx.impl("xp", [c.impl_fields() for c in cases])
+    impl = X.impl(ctx, "xp", [c.impl_fields() for c in cases])
     mfields = [c.model_fields(subs[i]) for i, c in enumerate(cases)]
     model = ctx.model("xp", mfields)
     spec = ctx.model("xpspec", mfields)
@@ -510,15 +518,20 @@ def tree_tokens(js):
     return ["Y"] + nodes(js)
 
 
-def brace_known(c, products):
+def brace_classes(c, products):
     import re
+    out = []
     if re.search(r"\{-?0\d+\.\.|\.\.-?0\d", c.text):
-        return "KF-C05-brace-zero-pad"
+        out.append("KF-C05-brace-zero-pad")
     if c.ifs is not None and " " not in c.ifs and len(products) >= 2:
-        return "KF-C05-brace-ifs"
+        out.append("KF-C05-brace-ifs")
     if any(p == "" for p in products):
-        return "KF-C05-brace-empty-word"
-    return None
+        out.append("KF-C05-brace-empty-word")
+    return out
+
+
+def brace_known(c, products):
+    return X.pick_class(brace_classes(c, products))
 
 
 def evaluate_brace(ctx, n):
@@ -531,7 +544,7 @@ def evaluate_brace(ctx, n):
         texts.append(gen_brace_text(rng))
         envs.append((gen_env(rng), rng.choice(IFSES), rng.choice(OPTSETS), rng.choice(DIRS)))
     trees = []
-    for l in ctx.impl("bparse", [[t] for t in texts]):
+    for l in X.impl(ctx, "bparse", [[t] for t in texts]):
         f = core.dec_line(l)
         try:
             trees.append(json.loads(f[0]) if f and f[0] != "ERR" else None)
@@ -542,7 +555,7 @@ def evaluate_brace(ctx, n):
     swords = [core.dec_line(l) for l in ctx.model("bspec", [["1", t] + k for t, k in zip(texts, toks)])]
     # parse the joined text and every specification word with the real parser
     flat_sw = [(i, w) for i, ws in enumerate(swords) for w in ws]
-    plines = ctx.impl("wparse", [[j, ""] for j in joined] + [[w, ""] for _i, w in flat_sw])
+    plines = X.impl(ctx, "wparse", [[j, ""] for j in joined] + [[w, ""] for _i, w in flat_sw])
     mism, specv = [], []
     stats = {"cases": n, "skipped_unsupported": 0, "model_checked": 0, "spec_checked": 0, "expanding": 0,
              "code_ne_spec": 0}
@@ -563,7 +576,7 @@ def evaluate_brace(ctx, n):
             stats["expanding"] += 1
         cases.append(c)
     live = [i for i, c in enumerate(cases) if c is not None]
-    impl = ctx.impl("xp", [cases[i].impl_fields() for i in live])
+    impl = X.impl(ctx, "xp", [cases[i].impl_fields() for i in live])
     model = ctx.model("xp", [cases[i].model_fields({}) for i in live])
     # specification: every word on its own
     spec_cases, owner = [], []
@@ -610,7 +623,7 @@ def evaluate_brace(ctx, n):
         if sr[0] != "UNSUPPORTED":
             stats["spec_checked"] += 1
             svb["compared"] += 1
-            zp = brace_known(c, c.products) == "KF-C05-brace-zero-pad"
+            zp = "KF-C05-brace-zero-pad" in brace_classes(c, c.products)
             if zp and sr != b:
                 # the parsed tree has lost the leading zero: the specification cannot see the padding
                 svb["spec_blind_zero_pad"] = svb.get("spec_blind_zero_pad", 0) + 1
@@ -623,7 +636,7 @@ def evaluate_brace(ctx, n):
         svb["code_eq_bash" if cr == b else "code_ne_bash"] += 1
         if cr != b:
             v = {"input": describe(c), "why": "bash gives %r, code gave %r (spec %r)" % (b, cr, sr)}
-            kf = brace_known(c, c.products) or classify(c, cr, b)
+            kf = classify(c, cr, b, extra=brace_classes(c, c.products))
             if kf:
                 v["known"] = kf
             specv.append(v)
@@ -684,7 +697,7 @@ def search(ctx, res):
     ctx.rng = random.Random(ctx.seed + 11)
     try:
         cases = gen_cases(ctx, 30000)
-        impl = ctx.impl("xp", [c.impl_fields() for c in cases])
+        impl = X.impl(ctx, "xp", [c.impl_fields() for c in cases])
         code = [X.decode_result(l) for l in impl]
         br = X.BashRunner()
         try:
